@@ -27,8 +27,9 @@ def coupling(obs, chain, emit):
             r = chain.ratios[i + 1]
             for var, tag in (('angular position', 'position'), ('angular speed', 'speed'),
                              ('angular acceleration', 'acceleration')):
-                up = obs['el'][i][var][k]
-                dn = obs['el'][i + 1][var][k]
+                su, sd = obs['el'][i][var], obs['el'][i + 1][var]
+                up = su[k] if k < len(su) else None
+                dn = sd[k] if k < len(sd) else None
                 checked += 1
                 if up is None or dn is None:
                     emit(f'{tag}/missing', f'{tag} recorded', k, {'i': i})
